@@ -1139,8 +1139,8 @@ func genCases(r *rand.Rand, tier string) []string {
 		}
 		if tier == "thorough" {
 			nc *= 60
-			if nc < 1200 {
-				nc = 1200
+			if nc < 2000 {
+				nc = 2000
 			}
 		}
 		out = append(out, combos(r, w.out, nc)...)
@@ -1154,7 +1154,7 @@ func genCases(r *rand.Rand, tier string) []string {
 		case root == "synth" && tier == "thorough":
 			nr = 300
 		case tier == "thorough":
-			nr = 120
+			nr = 200
 		}
 		for _, c := range randomConfigCases(r, root, nr, depth, true) {
 			out = append(out, c.line())
